@@ -65,6 +65,9 @@ type Case struct {
 	// errors. Such a ParseResult is still something a caller can hold and run; whatever Run does
 	// with it (an error, a panic) it must do again for the same inputs.
 	RawText string `json:"raw_text,omitempty"`
+	// RawNoise (with RawText): another ill-formed text, parsed between the runs. A ParseResult a
+	// caller holds - its errors included - is a value: parsing something else must not change it.
+	RawNoise string `json:"raw_noise,omitempty"`
 	// Linger, when > 0: one more run of task 0, alone, against a store that ignores its context;
 	// at its Linger-th call the context is cancelled while the call is in flight and the store
 	// answers only later. Whatever Run then returns, it must not return before its store call
@@ -345,6 +348,9 @@ func Execute(c Case, keepTrace bool, ch chooser) (res Result) {
 				// what any caller may do between runs: read the parse result's accessors
 				_ = pr.GetParsingErrors()
 				_ = pr.GetSource()
+				if c.RawNoise != "" {
+					exec.ParseLoose(c.RawNoise)
+				}
 				slots[i].out = append(slots[i].out, o)
 				if between {
 					// history: another script, declaring what this one lacks, runs in between
@@ -355,6 +361,7 @@ func Execute(c Case, keepTrace bool, ch chooser) (res Result) {
 		res.Runs += t.Reps
 	}
 	astBefore := exec.ProgramDigest(p.PR)
+	parseErrsBefore := fmt.Sprintf("%v | %q", p.PR.GetParsingErrors(), p.PR.GetSource())
 	hook.YieldFn = s.yield
 	hook.PermFn = func(keys []string) {
 		perm.Shuffle(len(keys), func(a, b int) { keys[a], keys[b] = keys[b], keys[a] })
@@ -469,6 +476,10 @@ func Execute(c Case, keepTrace bool, ch chooser) (res Result) {
 			res.Violation = viol("purity", "store-maps-modified", core.Truncate(strings.Join(muts, " ; "), 900))
 			return res
 		}
+	}
+	if after := fmt.Sprintf("%v | %q", p.PR.GetParsingErrors(), p.PR.GetSource()); after != parseErrsBefore {
+		res.Violation = viol("purity", "parse-result-accessors-changed", "GetParsingErrors() / GetSource() of the ParseResult the caller holds read "+core.Truncate(parseErrsBefore, 300)+" before the runs and "+core.Truncate(after, 300)+" after them")
+		return res
 	}
 	if after := exec.ProgramDigest(p.PR); after != astBefore {
 		res.Violation = viol("purity", "parsed-program-modified", "the shared parsed program changed during execution")
@@ -639,12 +650,22 @@ func genCase(r *rand.Rand) (Case, chooser) {
 		}
 	}
 	// a share of cases runs an EDITED text (parse errors included)
-	if r.IntN(25) == 0 {
+	if r.IntN(18) == 0 {
 		t := c.Prog.Text()
 		for n := 1 + r.IntN(3); n > 0; n-- {
 			t = gen.EditText(r, t)
 		}
 		c.RawText = t
+		if r.IntN(2) == 0 {
+			// and another broken text, parsed between the runs
+			o := c.Prog.Text()
+			for n := 1 + r.IntN(3); n > 0; n-- {
+				o = gen.EditText(r, o)
+			}
+			if o != t {
+				c.RawNoise = o
+			}
+		}
 		c.NoiseProg = nil
 		var keep []TaskSpec
 		for _, ts := range c.Tasks {
